@@ -112,13 +112,16 @@ func (srv *Session) consumeSingleCommand(ctx context.Context, reader *buffer.Rea
 	// NOTE: we increase the wait group by one in order to make sure that idle
 	// connections are not blocking a close. No new commands are started once
 	// the server is closing.
+	verifPoint("cmd.admit", conn)
 	if !srv.admit() {
+		verifPoint("cmd.refused", conn)
 		return nil
 	}
 
 	srv.logger.Debug("<- incoming command", slog.Int("length", length), slog.String("type", t.String()))
 	err = srv.handleCommand(ctx, conn, t, reader, writer)
 	srv.wg.Done()
+	verifPoint("cmd.done", conn)
 	if errors.Is(err, io.EOF) {
 		return nil
 	}
